@@ -279,6 +279,37 @@ def wide_portfolio_case(sp, acc, prop):
     acc.see('%s:wide_portfolio_sizes' % prop, len(held))
 
 
+def long_history_case(sp, acc):
+    """C01: 'the event history lists exactly these cash movements' also for a portfolio that has been trading for years: n fills
+    (n beyond 2**16) through the public Portfolio API; every movement is listed, the first entry is the opening subscription,
+    the last running balance is the cash (cents)."""
+    bw.install()
+    from qstrader.broker.portfolio.portfolio import Portfolio
+    from qstrader.broker.transaction.transaction import Transaction
+    t = bw.ts(sp['start'])
+    pf = Portfolio(t, starting_cash=sp['cash'], portfolio_id='L')
+    cash = F(sp['cash'])
+    n = sp['n']
+    for k in range(n):
+        q = 1 if k % 2 == 0 else -1
+        p = 10.0 + (k % 7) * 0.25
+        if k % 64 == 0:
+            t = t + pd.Timedelta(minutes=1)
+        pf.transact_asset(Transaction('EQ:L%d' % (k % 3), q, t, p, 'h%d' % k, commission=0.25))
+        cash -= F(p) * q + F(0.25)
+    hist = pf.history
+    df = pf.history_to_df()
+    if len(hist) != n + 1 or len(df) != n + 1:
+        raise Violation('C01', 'long-history/length', 'after one subscription and %d fills the history lists %d events (history_to_df: %d '
+                        'rows)' % (n, len(hist), len(df)), sp)
+    if hist[0].type != 'subscription':
+        raise Violation('C01', 'long-history/first-event', 'the first event of the history is %r, not the opening subscription' % (hist[0].type,), sp)
+    if not close(pf.cash, cash, abs(F(sp['cash']))) or abs(F(hist[-1].balance) - cash) > F('0.0100001'):
+        raise Violation('C01', 'long-history/balance', 'cash %r, last running balance %r, ledger %r' % (pf.cash, hist[-1].balance, float(cash)), sp)
+    acc.count('C01:long_histories_checked')
+    acc.count('C01:history_events_checked', n + 1)
+
+
 def random_ladder(rng, acc, prop, nops, faults):
     cfg = {'start': rng.choice(bw.STARTS), 'starting_cash': rng.choice([0.0, 1e5, 1e7, 333.33])}
     sc = bw.PortfolioScenario(cfg, {prop}, acc)
